@@ -599,7 +599,7 @@ namespace smt
     {
         if (!layers.empty() && !layers.back().old_preds.count({from, to}))
             // we store the current values for backtracking purposes..
-            layers.back().old_preds.insert({{from, to}, from});
+            layers.back().old_preds.insert({{from, to}, _preds[from][to]});
         // we update the predecessor..
         _preds[from][to] = pred;
     }
